@@ -4,10 +4,10 @@ From Coq Require Import Lia.
 From PV Require Import Model.Prelude Model.Bits Model.Sig Model.Select Model.Options Model.Wire Model.Mtu Model.Uptime
   Proofs.OptionsP.
 
-Theorem parse_packet_total v b r :
-  parse_packet v b = Framed r -> (exists k, r = Ok k) \/ r = Err PacketError.
+Theorem parse_datagram_total v b r :
+  parse_datagram v b = Framed r -> (exists k, r = Ok k) \/ r = Err PacketError.
 Proof.
-  unfold parse_packet. destruct (if v =? 4 then ip4 b else ip6 b) as [ip|]; [|discriminate].
+  unfold parse_datagram. destruct (if v =? 4 then ip4 b else ip6 b) as [ip|]; [|discriminate].
   destruct (negb (i_proto ip =? 6) || negb (i_fragoff ip =? 0)).
   - intros H; inversion H; subst. right; reflexivity.
   - destruct (tcp_seg (i_payload ip)) as [[t|e]|] eqn:T; try discriminate.
